@@ -32,6 +32,9 @@ class NonStr:
 
 
 def parse_group_tok(t):
+    if t.startswith("S:"):
+        l = parse_group_tok(t[2:])
+        return "".join(l)
     if t == "-":
         return None
     if t == "[]":
